@@ -166,6 +166,45 @@ MUTANTS: Dict[str, List[M]] = {
         ("method config popped unconditionally", "_cli.py", '        if not isinstance(method_object, property) and not has_parameter(method_object, "config"):\n            subcommand_cfg.pop("config", None)', '        subcommand_cfg.pop("config", None)', "C12.a"),
         ("return value dropped for coroutines", "_cli.py", '        return __import__("asyncio").run(component(**cfg))', '        __import__("asyncio").run(component(**cfg))\n        return None', "C12."),
     ],
+    "C13": [
+        ('remove dropped in args_and_kwargs', "_parameter_resolvers.py", '                params = remove_given_parameters(node, params, removed_params)\n', '', 'C13.a'),
+        ('remove only under super', "_parameter_resolvers.py", '                params = remove_given_parameters(node, params, removed_params)\n                if params:', '                if params:', 'C13.a'),
+        ('removed names filter dropped', "_parameter_resolvers.py", '        params = [p for p in params if p.name not in removed_params]\n', '', 'C13.a'),
+        ('remove dropped in match_call', "_parameter_resolvers.py", '            params = remove_given_parameters(node, params)\n', '', 'C13.a'),
+        ('positional filter dropped', "_parameter_resolvers.py", '    params = [p for n, p in enumerate(params) if n not in given_args]\n', '    params = list(params)\n', 'C13.b'),
+        ('keyword filter uses input', "_parameter_resolvers.py", '    params = [p for p in params if p.name not in given_kwargs]', '    params = [p for p in input_params if p.name not in given_kwargs]', 'C13.b'),
+        ('starred counts as position', "_parameter_resolvers.py", 'return [n for n, a in enumerate(node.args) if not isinstance(a, ast.Starred)]', 'return [n for n, a in enumerate(node.args)]', 'C13.b'),
+        ('kwargs kinds lose POSITIONAL_OR_KEYWORD', "_parameter_resolvers.py", 'kwargs = [p for p in params if p.kind in {kinds.KEYWORD_ONLY, kinds.POSITIONAL_OR_KEYWORD}]', 'kwargs = [p for p in params if p.kind in {kinds.KEYWORD_ONLY}]', 'C13.c'),
+        ('args takes positional or keyword', "_parameter_resolvers.py", 'args = [p for p in params if p.kind == kinds.POSITIONAL_ONLY]', 'args = [p for p in params if p.kind == kinds.POSITIONAL_OR_KEYWORD]', 'C13.c'),
+        ('kwargs slot kept', "_parameter_resolvers.py", 'params = params[:kwargs_idx] + kwargs + params[kwargs_idx + 1 :]', 'params = params[:kwargs_idx] + kwargs + params[kwargs_idx:]', 'C13.c'),
+        ('args slot off by one', "_parameter_resolvers.py", 'params = params[:args_idx] + args + params[args_idx + 1 :]', 'params = params[: args_idx + 1] + args + params[args_idx + 1 :]', 'C13.c'),
+        ('kwargs idx adjust wrong', "_parameter_resolvers.py", 'kwargs_idx += len(args) - 1', 'kwargs_idx += len(args)', 'C13.c'),
+        ('dedup dropped', "_parameter_resolvers.py", '        kwargs = [p for p in kwargs if p.name not in existing_names]\n', '', 'C13.c'),
+        ('guard >= 0 to > 0', "_parameter_resolvers.py", '    if kwargs_idx >= 0:\n        existing_names', '    if kwargs_idx > 0:\n        existing_names', 'C13.c'),
+        ('group keeps positional only', "_parameter_resolvers.py", '            if param.kind != kinds.POSITIONAL_ONLY:\n                params_dict[param.name].append(param)', '            params_dict[param.name].append(param)', 'C13.c'),
+        ('self dropped always', "_parameter_resolvers.py", '    if parent:\n        params = params[1:]\n    args_idx', '    params = params[1:]\n    args_idx', 'C13.d'),
+        ('indexes before slice', "_parameter_resolvers.py", '    if parent:\n        params = params[1:]\n    args_idx = get_arg_kind_index(params, kinds.VAR_POSITIONAL)\n    kwargs_idx = get_arg_kind_index(params, kinds.VAR_KEYWORD)\n', '    args_idx = get_arg_kind_index(params, kinds.VAR_POSITIONAL)\n    kwargs_idx = get_arg_kind_index(params, kinds.VAR_KEYWORD)\n    if parent:\n        params = params[1:]\n', 'C13.d'),
+        ('attrs from other param', "_parameter_resolvers.py", '**{a: getattr(param, a) for a in parameter_attributes}', '**{a: getattr(params[0], a) for a in parameter_attributes}', 'C13.d'),
+        ('returned idx swapped', "_parameter_resolvers.py", 'return params, args_idx, kwargs_idx, doc_params, stubs', 'return params, kwargs_idx, args_idx, doc_params, stubs', 'C13.d'),
+        ('pop get set widened', "_parameter_resolvers.py", 'node.func.attr in {"pop", "get"}', 'node.func.attr in {"pop", "get", "setdefault"}', 'C13.e'),
+        ('receiver test dropped', "_parameter_resolvers.py", '        and value_dump == ast.dump(node.func.value)\n', '', 'C13.e'),
+        ('name from args[1]', "_parameter_resolvers.py", '        name = ast_get_constant_value(node.args[0])\n        if ast_is_constant(node.args[1])', '        name = ast_get_constant_value(node.args[1])\n        if ast_is_constant(node.args[1])', 'C13.e'),
+        ('pop kind positional', "_parameter_resolvers.py", '            default=default,\n            kind=kinds.KEYWORD_ONLY,\n            doc=doc_params.get(name),', '            default=default,\n            kind=kinds.POSITIONAL_ONLY,\n            doc=doc_params.get(name),', 'C13.e'),
+        ('super self test dropped', "_parameter_resolvers.py", '        and self_name == args[1].id\n', '', 'C13.f'),
+        ('super offset lost', "_parameter_resolvers.py", 'current_mro.set((classes, idx + offset))', 'current_mro.set((classes, offset))', 'C13.f'),
+        ('mro start off', "_parameter_resolvers.py", 'enumerate(classes[idx + 1 :], start=idx + 1)', 'enumerate(classes[idx + 1 :], start=idx)', 'C13.f'),
+        ('mro includes self', "_parameter_resolvers.py", 'enumerate(classes[idx + 1 :], start=idx + 1)', 'enumerate(classes[idx:], start=idx)', 'C13.f'),
+        ('mro set after', "_parameter_resolvers.py", '            current_mro.set((classes, num))\n            return get_parameters_fn(cls, method, logger=logger)', '            return get_parameters_fn(cls, method, logger=logger)', 'C13.f'),
+        ('remainder includes self', "_parameter_resolvers.py", 'remainder = classes[num + 1 :] + [object]', 'remainder = classes[num:] + [object]', 'C13.f'),
+        ('assumptions before ast', "_parameter_resolvers.py", '        get_parameters_from_ast,\n        get_parameters_from_stubs,\n        get_parameters_by_assumptions,', '        get_parameters_by_assumptions,\n        get_parameters_from_ast,\n        get_parameters_from_stubs,', 'C13.g'),
+        ('narrow except in chain', "_parameter_resolvers.py", '        except Exception as ex:\n            logger.debug(\n                "%s failed', '        except SourceNotAvailable as ex:\n            logger.debug(\n                "%s failed', 'C13.g'),
+        ('truthy break', "_parameter_resolvers.py", '        if params is not None:\n            break\n    return params or []', '        if params:\n            break\n    return params or []', 'C13.g'),
+        ('if polarity swapped', "_parameter_resolvers.py", 'body = node.body if condition else node.orelse', 'body = node.orelse if condition else node.body', 'C13.h'),
+        ('not negation dropped', "_parameter_resolvers.py", '            if is_test_not:\n                condition = not condition\n', '', 'C13.h'),
+        ('NOT_ACCEPTED cmp', "_parameter_resolvers.py", '            if len(params) < non_get_pop_count:\n                defaults', '            if len(params) <= non_get_pop_count:\n                defaults', 'C13.i'),
+        ('unconditional cmp', "_parameter_resolvers.py", 'if len(params) >= non_get_pop_count and', 'if len(params) > non_get_pop_count and', 'C13.i'),
+        ('pop counted as branch', "_parameter_resolvers.py", '        if not (params[0].origin or "").startswith(param_kwargs_pop_or_get):  # type: ignore[union-attr]\n            non_get_pop_count += 1', '        non_get_pop_count += 1', 'C13.i'),
+    ],
     "C14": [
         ("stale dict_kwargs kept on the command line path", "_typehints.py", '                    prev_val.pop("dict_kwargs", None)  # Namespace.update merges by leaf', '                    pass  # Namespace.update merges by leaf', "C14.e"),
         ("stale dict_kwargs kept on the merge path", "_typehints.py", '        del_kwargs = prev_val.pop("dict_kwargs")', '        del_kwargs = prev_val.get("dict_kwargs")', "C14.e"),
